@@ -8,9 +8,10 @@ from translators import t2_pointwise
 from core.ctx import REPO
 from . import _c03_expr as X
 from . import _c03_aux as AUX
+from . import _c03_aux2 as AUX2
 
 ID = "C03"
-LEAN_MODULES = ["NiftyVerif.Core.Proto", "NiftyVerif.Model.Expr", "NiftyVerif.Model.ExprIO", "NiftyVerif.Props.C03Ptw", "NiftyVerif.Props.C03Sinc", "NiftyVerif.Props.C03", "NiftyVerif.Props.C03Adj"]
+LEAN_MODULES = ["NiftyVerif.Core.Proto", "NiftyVerif.Model.Expr", "NiftyVerif.Model.ExprIO", "NiftyVerif.Props.C03Ptw", "NiftyVerif.Props.C03Sinc", "NiftyVerif.Props.C03", "NiftyVerif.Props.C03Adj", "NiftyVerif.Props.C03Complex", "NiftyVerif.Model.Cplx"]
 DRIVER = "Driver/C03.lean"
 TRANSLATORS = [t2_pointwise.translate]
 _PTW = ["sqrt", "sin", "cos", "tan", "exp", "expm1", "log", "log10", "log1p", "sinh", "cosh", "tanh", "sigmoid",
@@ -20,13 +21,19 @@ OBLIGATIONS = (["NiftyVerif.C03.ptw_hval_eq_val"] + ["NiftyVerif.C03.ptw_hasDeri
                + ["NiftyVerif.C03.ptw_hasDerivAt_sinc_zero", "NiftyVerif.C03.ptw_hasDerivAt_sinc_all", "NiftyVerif.C03.ptw_kink_abs", "NiftyVerif.C03.ptw_kink_clip", "NiftyVerif.C03.ptw_kink_sinc",
                   "NiftyVerif.C03.ptw_table_hasDerivAt", "NiftyVerif.C03.lin_val", "NiftyVerif.C03.lin_hasDerivAt",
                   "NiftyVerif.C03.metric_carried", "NiftyVerif.C03.metric_gauss", "NiftyVerif.C03.metric_sum",
-                  "NiftyVerif.C03.metric_sum_none", "NiftyVerif.C03.metric_scale", "NiftyVerif.C03.jac_adjoint"])
+                  "NiftyVerif.C03.metric_sum_none", "NiftyVerif.C03.metric_scale", "NiftyVerif.C03.jac_adjoint",
+                  "NiftyVerif.C03.ptw_table_hasDerivAt_c", "NiftyVerif.C03.lin_hasDerivAt_c", "NiftyVerif.C03.jac_adjoint_c"])
 RULE = ("(1) T2: every ptw_dict entry on a float grid over its valid range incl. kinks (value, helper value, derivative) "
         "vs the regenerated Lean definitions; (2) generated operator trees (<=16 nodes; var/add/sub/mul/scale/addc/mulc/"
         "ptw/lin/sum/vdot/getKey/putKey/chain/sqnorm/quad/gauss) over single and multi-domains, dyadic inputs, "
         "with/without want_metric, built with the REAL operators and re-evaluated with Linearization arithmetic and complex "
         "inputs; (3) auxiliary stream outside the model (Linearization.outer, MultiLinearEinsum/LinearEinsum incl. static "
-        "fields, integrate) against NumPy references; non-trivial = tree contains a non-linear node; "
+        "fields, integrate) against NumPy references, and Gaussian energies with complex data on complex-valued models (complex "
+        "scalings/diagonals/dense matrices, FFT, holomorphic functions): value, real-linear Jacobian, gradient, metric = J^H N J "
+        "for every mechanism (Linearization, get_metric_at, transformation), Hermitian, PSD; complex inputs through real/imag/"
+        "conjugate/vdot on operators and Linearization objects (real-linear Jacobian, Re<.,.> adjoint); JaxOperator/"
+        "JaxLinearOperator vs NumPy twins; (4) class E: polynomial/piecewise-linear trees compared EXACTLY with the model over "
+        "Rat; (5) complexified holomorphic trees vs the model over complex numbers; non-trivial = tree contains a non-linear node; "
         "distinct by canonical (tree, input, flag)")
 TRUSTED_BASE = [
     "Lean 4.33 kernel + Mathlib real analysis; axioms propext/Classical.choice/Quot.sound only (audited every run)",
@@ -93,7 +100,78 @@ def run_ptw(ctx, names, meta):
                 continue
             reqs.append(dict(op="ptw", f=n, p=X.enc(p), v=X.enc(g)))
             info.append((n, p, g))
-    outs = ctx.model(DRIVER, reqs)
+    return reqs, info
+
+
+CPTW = ["sin", "cos", "exp", "expm1", "sinh", "cosh", "tanh", "sigmoid", "reciprocal", "sqrt", "log", "log10", "log1p",
+        "power", "exponentiate", "tan", "arctan"]
+
+
+def cplx_grid(name, rng):
+    """complex arguments inside the principal-branch domain of a holomorphic table entry (away from cuts and poles)"""
+    re = [k / 4 for k in range(-8, 9)] + [rng.uniform(-2, 2) for _ in range(6)]
+    im = [-0.75, -0.25, 0.0, 0.125, 0.5, 0.875]
+    z = [complex(a, b) for a in re for b in im]
+    if name in ("sqrt", "log", "log10", "power"):
+        z = [w for w in z if w.real > 0.1]
+    elif name == "log1p":
+        z = [w for w in z if w.real > -0.8]
+    elif name == "reciprocal":
+        z = [w for w in z if abs(w) > 0.2]
+    elif name == "tan":
+        z = [w for w in z if abs(np.cos(w)) > 0.2]
+    elif name in ("tanh", "sigmoid"):
+        z = [w for w in z if abs(np.cosh(w)) > 0.2]
+    elif name == "arctan":
+        z = [w for w in z if abs(w.imag) < 0.9]
+    P = {"power": [[1.5], [-0.5], [2.0]], "exponentiate": [[0.5], [2.0]]}.get(name, [[]])
+    return z, P
+
+
+def run_ptw_complex(ctx, names):
+    """T2 on complex arguments: the generated definitions over `Cplx` vs ptw_dict on complex arrays"""
+    reqs, info = [], []
+    cb = lambda w: [X.f2b(complex(w).real), X.f2b(complex(w).imag)]
+    for n in CPTW:
+        if n not in names:
+            continue
+        z, P = cplx_grid(n, ctx.rng)
+        for p in P:
+            reqs.append(dict(op="ptwc", f=n, p=[cb(q) for q in p], v=[cb(w) for w in z]))
+            info.append((n, p, z))
+    return reqs, info
+
+
+def finish_ptw_complex(ctx, info, outs):
+    from nifty.cl.pointwise import ptw_dict
+    for (n, p, z), m in zip(info, outs):
+        case = dict(op="ptwc", f=n, p=p)
+        ctx.stat("ptwc:" + n)
+        ctx.case(case, nontrivial=True)
+        v = np.array(z, dtype=np.complex128)
+        try:
+            with np.errstate(all="ignore"):
+                val = np.asarray(ptw_dict[n][0](v.copy(), *p), dtype=np.complex128)
+                hval, der = ptw_dict[n][1](v.copy(), *p)
+        except Exception as e:
+            ctx.disagree(case, {"error": type(e).__name__}, "values", note="T2 complex ptw table")
+            continue
+        if "error" in m:
+            ctx.disagree(case, "values", m, note="T2 complex ptw table")
+            continue
+        for key, a in (("val", val), ("hval", np.asarray(hval, dtype=np.complex128)), ("der", np.asarray(der, dtype=np.complex128) + 0 * v)):
+            b = X.decc(m[key])
+            err = np.abs(a - b)
+            tol = 1e-10 * (1 + np.abs(b))
+            if np.any(~(err <= tol)):
+                i = int(np.argmax(np.where(np.isnan(err), np.inf, err - tol)))
+                ctx.disagree(dict(case, kind="ptwc"), f"{key}: at z={z[i]}: impl {a[i]!r} model {b[i]!r}",
+                             "generated Lean definition over Cplx", note=f"T2 complex ptw table entry {n}")
+                break
+
+
+def finish_ptw(ctx, info, outs):
+    from nifty.cl.pointwise import ptw_dict
     for (n, p, g), m in zip(info, outs):
         case = dict(op="ptw", f=n, p=p)
         ctx.stat("ptw:" + n)
@@ -238,7 +316,7 @@ def compare_arith(ctx, case, r, r2, m):
 
 def compare_tree(ctx, case, r, m):
     """model vs real: value (plain and linearised), dense Jacobian, dense adjoint, metric presence and entries"""
-    nontriv = any(n["t"] in ("ptw", "mul", "vdot", "sqnorm", "quad", "gauss") for n in X.nodes(case["expr"]))
+    nontriv = any(n["t"] in ("ptw", "mul", "vdot", "sqnorm", "quad", "gauss", "bil", "varcov") for n in X.nodes(case["expr"]))
     ctx.case(case, nontrivial=nontriv)
     if "error" in r or "error" in m:
         if not ("error" in r and "error" in m):
@@ -266,6 +344,33 @@ def compare_tree(ctx, case, r, m):
         ctx.disagree(case, "real: " + ", ".join(diffs) + " differ", "model", note="expression tree: " + ", ".join(diffs))
 
 
+def compare_exact(ctx, case, r, m):
+    """class E: every float of the real result must EQUAL the model's exact rational (value, Jacobian, adjoint, metric)"""
+    from fractions import Fraction
+    if "error" in r or "error" in m:
+        if "error" in m:
+            ctx.disagree(case, "values", m, "class E: model rejects the tree")
+        return
+    din = r["din"]
+    nin, nout = X.nflat(din), X.nflat(X.dom(case["expr"]))
+    F = lambda a: [Fraction(float(v)) for v in np.asarray(a, dtype=np.float64).ravel()]
+    Q = lambda l: [Fraction(v) for v in l]
+    diffs = []
+    if F(r["pval"]) != Q(m["pval"]) or F(r["val"]) != Q(m["val"]):
+        diffs.append("value")
+    if F(np.asarray(r["jac"]).T) != [q for row in m["jac"] for q in Q(row)]:
+        diffs.append("jacobian")
+    if F(np.asarray(r["adj"]).T) != [q for row in m["adj"] for q in Q(row)]:
+        diffs.append("adjoint")
+    if (r["metric"] is None) != (m["metric"] is None):
+        diffs.append("metric presence")
+    elif r["metric"] is not None and case.get("_metric_exact") and F(np.asarray(r["metric"]).T) != [q for row in m["metric"] for q in Q(row)]:
+        diffs.append("metric")
+    if diffs:
+        ctx.disagree(case, "real (exact comparison): " + ", ".join(diffs) + " differ", "model (rational)",
+                     note="class E exact comparison: " + ", ".join(diffs))
+
+
 def expected_metric(b, t, x, din):
     """metric the property demands, from REAL Jacobians of the sub-operators: JᵀNJ at energies, sums add, chains sandwich"""
     k = t["t"]
@@ -276,6 +381,15 @@ def expected_metric(b, t, x, din):
             r = X.linearize(b, a, X.dom(t["a"]), x, False)
         J = embed_cols(r["jac"], da, din)
         return J.T @ np.diag(np.array(t["icov"])) @ J
+    if k == "varcov":
+        with quiet():
+            parts = []
+            for sub in (t["a"], t["b"]):
+                o = b.build(sub)
+                r = X.linearize(b, o, X.dom(sub), x, False)
+                parts.append((embed_cols(r["jac"], X.op_indom(b, o), din), r["val"]))
+        (Ja, _), (Jb, vb) = parts
+        return Ja.T @ np.diag(vb) @ Ja + Jb.T @ np.diag(0.5 / vb ** 2) @ Jb
     if k == "add":
         ma, mb = expected_metric(b, t["a"], x, din), expected_metric(b, t["b"], x, din)
         return None if (ma is None or mb is None) else ma + mb
@@ -317,8 +431,20 @@ def embed_cols(J, dsub, dall):
 
 def oracle(case):
     """the property on the REAL code only"""
+    if case.get("aux") in ("creal", "jaxop"):
+        return AUX2.oracle(case)
     if "aux" in case:
         return AUX.oracle(case)
+    if case.get("complex"):
+        cc, r = complex_real(case)
+        sigc = {"site": "complex-model"}
+        if "error" in r:
+            return (f"complex constants/input: raised {r['error']} in {r.get('where')}", dict(sigc, kind="error:" + r["error"], where=r.get("where")))
+        if not cclose(r["val"], r["pval"], 1e-12):
+            return ("complex constants/input: value on a Linearization differs from plain evaluation", dict(sigc, kind="value"))
+        if not cclose(r["adj"], r["jac"].conj().T, 1e-12):
+            return ("complex constants/input: adjoint Jacobian is not the conjugate transpose", dict(sigc, kind="adjoint"))
+        return None
     if case.get("kind") == "ptw" or case.get("op") == "ptw":
         names, meta = names_meta()
         g, P = ptw_grid(case["f"], __import__("random").Random(0))
@@ -375,7 +501,7 @@ def oracle(case):
 
 HOLO_PTW = {"sin", "cos", "exp", "expm1", "sinh", "cosh", "tanh", "sigmoid", "reciprocal", "sqrt", "log", "log10",
             "log1p", "power", "exponentiate", "tan", "arctan"}
-HOLO_NODES = {"var", "add", "sub", "mul", "scale", "addc", "mulc", "ptw", "lin", "sum", "getKey", "putKey", "chain"}
+HOLO_NODES = {"var", "add", "sub", "mul", "scale", "addc", "mulc", "ptw", "lin", "sum", "getKey", "putKey", "chain", "bil"}
 
 
 def holomorphic(t):
@@ -437,7 +563,98 @@ def complex_oracle(case):
     return None
 
 
+def complex_real(case):
+    """REAL code on a complexified holomorphic tree at a complex input: value, dense Jacobian, dense adjoint"""
+    import random
+    from core.ctx import canon
+    rng = random.Random(canon({k: v for k, v in case.items() if k != "complex"}) + "cm")
+    cc = case if case.get("complex") else dict(case, expr=X.complexify(case["expr"], rng))
+    try:
+        with quiet(), np.errstate(all="ignore"):
+            import nifty.cl as ift
+            b = X.Builder(cc["indom"], cc.get("space", "U"))
+            op = b.build(cc["expr"])
+            din, tdom = X.op_indom(b, op), X.dom(cc["expr"])
+            x0 = np.concatenate([np.asarray(cc["x"][k], dtype=np.float64) for k, _ in X.flat_dom(din)])
+            z0 = x0 + 1j * np.array([rng.randint(-2, 2) / 32 for _ in x0])
+            p = X.from_flat(b, z0, din, np.complex128)
+            lin = op(ift.Linearization.make_var(p, False))
+            res = dict(val=X.to_flat(lin.val, tdom), pval=X.to_flat(op(p), tdom),
+                       jac=X.dense(lin.jac, b, din, tdom, np.complex128),
+                       adj=X.dense(lin.jac.adjoint_times, b, tdom, din, np.complex128), din=din, z0=z0)
+    except Exception as e:
+        return cc, {"error": type(e).__name__, "msg": str(e)[:160], "where": err_site(e)}
+    return cc, res
+
+
+def cclose(a, b, tol=TOL):
+    a, b = np.asarray(a, dtype=np.complex128), np.asarray(b, dtype=np.complex128)
+    if a.shape != b.shape:
+        return False
+    if a.size == 0:
+        return True
+    return bool(np.all(np.abs(a - b) <= tol * max(1.0, float(np.max(np.abs(b))))))
+
+
+def run_complex_model(ctx, cases):
+    """complex mode of the model (driver op linc) vs the real code on complexified holomorphic trees: real side + requests"""
+    todo = []
+    for c in cases:
+        if not holomorphic(c["expr"]):
+            continue
+        cc, r = complex_real(c)
+        if "error" in r:
+            ctx.stat("complex-model:real-error:" + r["error"])
+            ctx.counterexample(dict(cc, complex=True), f"complex constants/input: raised {r['error']} in {r.get('where')}: {r.get('msg')}",
+                               {"site": "complex-model", "kind": "error:" + r["error"], "where": r.get("where")})
+            continue
+        if not (np.all(np.isfinite(r["pval"])) and np.all(np.isfinite(r["jac"])) and np.max(np.abs(r["jac"]), initial=0) < 1e4
+                and np.max(np.abs(r["pval"]), initial=0) < 1e4):
+            ctx.stat("complex-model:left-range")
+            continue
+        din = r["din"]
+        z, o, xs = r["z0"], 0, {}
+        for k, n in X.flat_dom(din):
+            xs[k] = [[X.f2b(v.real), X.f2b(v.imag)] for v in z[o:o + X.nent(n)]]
+            o += X.nent(n)
+        todo.append((cc, r, dict(op="linc", **{"in": [[k, n] for k, n in X.flat_dom(din)]}, x=xs, expr=X.ship_c(cc["expr"]))))
+    return todo
+
+
+def finish_complex_model(ctx, todo, outs):
+    for (cc, r, _), m in zip(todo, outs):
+        ctx.stat("complex-model")
+        case = dict(cc, complex=True)
+        ctx.case(case, nontrivial=True)
+        if "error" in m:
+            ctx.disagree(case, "values", m, "complex model: model rejects the tree")
+            continue
+        nin, nout = X.nflat(r["din"]), X.nflat(X.dom(cc["expr"]))
+        diffs = []
+        if not cclose(r["pval"], X.decc(m["pval"])) or not cclose(r["val"], X.decc(m["val"])):
+            diffs.append("value")
+        mj = np.array([X.decc(row) for row in m["jac"]]).reshape(nin, nout).T if nin and nout else np.zeros((nout, nin))
+        ma = np.array([X.decc(row) for row in m["adj"]]).reshape(nout, nin).T if nin and nout else np.zeros((nin, nout))
+        if not cclose(r["jac"], mj):
+            diffs.append("jacobian")
+        if not cclose(r["adj"], ma):
+            diffs.append("adjoint")
+        if diffs:
+            ctx.disagree(case, "real (complex): " + ", ".join(diffs) + " differ", "model (complex)",
+                         note="complex model: " + ", ".join(diffs))
+            if not cclose(r["adj"], r["jac"].conj().T, 1e-12):
+                ctx.counterexample(case, "complex constants/input: adjoint Jacobian is not the conjugate transpose",
+                                   {"site": "complex-model", "kind": "adjoint"})
+
+
 def shrink(case):
+    if case.get("aux") == "cmetric":
+        for i in range(len(case["steps"])):
+            if len(case["steps"]) > 1:
+                yield dict(case, steps=case["steps"][:i] + case["steps"][i + 1:])
+        if case.get("scale_lh") is not None:
+            yield dict(case, scale_lh=None)
+        return
     if "aux" in case:
         for key in ("xa", "xb", "x"):
             if key in case and len(case[key]) > 1:
@@ -465,7 +682,7 @@ def shrink(case):
 # ------------------------------------------------------------------------------------------------- run
 def run(ctx):
     names, meta = names_meta()
-    run_ptw(ctx, names, meta)
+    preqs, pinfo = run_ptw(ctx, names, meta)
     for n in names:
         g, P = ptw_grid(n, ctx.rng)
         for p in P:
@@ -483,13 +700,21 @@ def run(ctx):
     aux = []
     for pth in sorted(glob.glob(os.path.join(VERIF, "corpus", ID, "*.json"))):
         c = json.load(open(pth))["case"]
+        if c.get("complex"):
+            ctx.case(c, nontrivial=True)
+            res = oracle(c)
+            if res:
+                ctx.counterexample(c, *res)
+            continue
         (aux if "aux" in c else cases).append(c)
     # anchored mechanisms outside the Lean model (Linearization.outer, einsum.py, integrate): oracle on the real code
     aux += AUX.gen(ctx.rng, ctx.n(120, 800))
+    aux += AUX.gen_cmetric(ctx.rng, ctx.n(70, 600))
+    aux += AUX2.gen_creal(ctx.rng, ctx.n(70, 600)) + AUX2.gen_jaxop(ctx.rng, ctx.n(10, 60))
     for c in aux:
         ctx.stat("aux:" + c["aux"])
         ctx.case(c, nontrivial=True)
-        res = AUX.oracle(c)
+        res = oracle(c)
         if res:
             ctx.counterexample(c, *res)
     ntree = ctx.n(220, 1500)
@@ -510,10 +735,29 @@ def run(ctx):
             din = r["din"]
             ctx.stat("metric:" + ("some" if r["metric"] is not None else "none"))
         reqs.append(model_request(c, din))
+    # class E: polynomial / piecewise-linear trees at dyadic inputs are additionally compared EXACTLY with the rational model
+    exact = []
+    for c, r in zip(cases, reals):
+        bits = X.exact_bits(c["expr"])
+        if bits is not None and bits <= 48 and "error" not in r:
+            c2 = dict(c, _metric_exact=2 * bits + 10 <= 52)
+            exact.append((c2, r, dict(op="linq", **{"in": [[k, n] for k, n in X.flat_dom(r["din"])]},
+                                      x={k: [str(__import__("fractions").Fraction(float(v))) for v in c["x"][k]] for k in r["din"]},
+                                      wm=c["wm"], expr=X.ship_q(c["expr"]))))
+    ctx.stat("class-E-trees", len(exact))
+    ctodo = run_complex_model(ctx, cases)
     outs = []
-    B = 250
-    for i in range(0, len(reqs), B):
-        outs += ctx.model(DRIVER, reqs[i:i + B])
+    B = 1200
+    pcreqs, pcinfo = run_ptw_complex(ctx, names)
+    allreq = reqs + [e[2] for e in exact] + [t[2] for t in ctodo] + preqs + pcreqs
+    for i in range(0, len(allreq), B):
+        outs += ctx.model(DRIVER, allreq[i:i + B])
+    finish_ptw(ctx, pinfo, outs[len(allreq) - len(preqs) - len(pcreqs):len(allreq) - len(pcreqs)])
+    finish_ptw_complex(ctx, pcinfo, outs[len(allreq) - len(pcreqs):])
+    for (c2, r, _), m in zip(exact, outs[len(reqs):len(reqs) + len(exact)]):
+        compare_exact(ctx, {k: v for k, v in c2.items()}, r, m)
+    finish_complex_model(ctx, ctodo, outs[len(reqs) + len(exact):])
+    outs = outs[:len(reqs)]
     for c, r, m in zip(cases, reals, outs):
         compare_tree(ctx, c, r, m)
         compare_arith(ctx, c, r, arith_eval(c), m)
